@@ -33,6 +33,11 @@ type History struct {
 	ID    int    `json:"id"`
 	Ops   []Op   `json:"ops"`   // the generated history (for -replay)
 	Cases []Case `json:"cases"` // crash cases derived from it
+	// start-up paths: first start on an empty directory (no Ops), header
+	// state assertions on the final state of Ops
+	FirstStart bool         `json:"first_start,omitempty"`
+	Startup    *StartupSpec `json:"startup,omitempty"`
+	SCases     []SCase      `json:"scases,omitempty"`
 }
 
 func isMut(k string) bool {
@@ -41,38 +46,14 @@ func isMut(k string) bool {
 
 // evalImage reopens the stores on a crash image and produces the post trace.
 func evalImage(dir string, pool *storeh.Pool, followTok int64) []Op {
-	e := &storeh.Env{Dir: dir, Pool: pool}
 	post := []Op{{Kind: "reopen", WF: true}}
-	if err := e.Open(); err != nil {
+	opened, rest := evalImageA(dir, pool, followTok, nil)
+	if !opened {
 		post[0].Obs = "(OReopen false)"
 		return post
 	}
-	defer e.Close()
 	post[0].Obs = "(OReopen true)"
-	g := &storeh.Gen{E: e, Used: map[int64]bool{}}
-	g.Resync()
-	ops := storeh.FullDump(g)
-	// follow-up: syncing resumes - append one block header at tip+1, read it
-	// back, append a filter header if the filter chain is behind
-	if _, tip, err := e.BS.ChainTip(); err == nil {
-		ops = append(ops,
-			Op{Kind: "bwrite", Es: []storeh.Ent{{A: followTok, B: int64(tip) + 1}}, WF: true},
-			Op{Kind: "qbheight", N: int64(tip) + 1, WF: true},
-			Op{Kind: "qbtip", WF: true},
-			Op{Kind: "qheightof", X: followTok, WF: true})
-		if _, ft, err := e.FS.ChainTip(); err == nil && ft < tip {
-			if h, err := e.BS.FetchHeaderByHeight(ft + 1); err == nil {
-				ops = append(ops,
-					Op{Kind: "fwrite", Es: []storeh.Ent{{A: storeh.FilterBase + 599, B: pool.HTok(h)}}, WF: true},
-					Op{Kind: "qftip", WF: true})
-			}
-		}
-	}
-	for i := range ops {
-		e.Exec(&ops[i])
-		post = append(post, ops[i])
-	}
-	return post
+	return append(post, rest...)
 }
 
 func appendBytes(path string, data []byte) {
@@ -84,7 +65,10 @@ func appendBytes(path string, data []byte) {
 	f.Close()
 }
 
-func runHistory(id int, seed int64, nops int, base string, pool *storeh.Pool, replay *History) History {
+func runHistory(id int, seed int64, nops int, nTrig int, base string, pool *storeh.Pool, replay *History) History {
+	if replay != nil && replay.FirstStart {
+		return runFirstStart(id, seed, base, pool, replay)
+	}
 	tmpl, err := storeh.Template(base)
 	if err != nil {
 		panic(err)
@@ -106,6 +90,7 @@ func runHistory(id int, seed int64, nops int, base string, pool *storeh.Pool, re
 	g.Resync()
 	nimg := 0
 	step := 0
+	broken := false
 	for {
 		var op Op
 		if replay != nil {
@@ -129,6 +114,7 @@ func runHistory(id int, seed int64, nops int, base string, pool *storeh.Pool, re
 			ok := e.Exec(&op)
 			h.Ops = append(h.Ops, op)
 			if !ok {
+				broken = true
 				break
 			}
 			continue
@@ -221,9 +207,16 @@ func runHistory(id int, seed int64, nops int, base string, pool *storeh.Pool, re
 		}
 		h.Ops = append(h.Ops, op)
 		if !ok {
+			broken = true
 			break
 		}
 		g.Resync()
+	}
+	if !broken && nTrig > 0 {
+		// header state assertions on the final state
+		ftoks := filterTokens(e, pool)
+		e.Close()
+		startupCases(&h, seed, base, dir, pool, ftoks, nTrig, replay)
 	}
 	return h
 }
@@ -248,10 +241,11 @@ func main() {
 	}
 	pool := storeh.NewPool(600, gf)
 
-	n, nops := 24, 14
+	n, nops, nTrig := 24, 14, 1
 	if a.Tier == "thorough" {
-		n, nops = 400, 20
+		n, nops, nTrig = 400, 20, 2
 	}
+	firstStart := &History{ID: 800, FirstStart: true}
 	var replay *History
 	var corpus []History
 	if a.Replay != "" {
@@ -266,6 +260,7 @@ func main() {
 			c.ReadJSON(f, &h)
 			corpus = append(corpus, h)
 		}
+		corpus = append(corpus, *firstStart)
 		n += len(corpus)
 	}
 	hs := make([]History, n)
@@ -284,7 +279,7 @@ func main() {
 				rp = &corpus[i-(n-len(corpus))]
 				id = rp.ID
 			}
-			hs[i] = runHistory(id, a.Seed, nops, base, pool, rp)
+			hs[i] = runHistory(id, a.Seed, nops, nTrig, base, pool, rp)
 		}(i)
 	}
 	wg.Wait()
@@ -325,9 +320,64 @@ func main() {
 		c.WriteFile(filepath.Join(a.Out, fmt.Sprintf("cases_%d.v", shard)), sb.String())
 		shard++
 	}
+	// start-up cases (first start, header state assertions)
+	type sref struct {
+		h  int
+		cs *SCase
+	}
+	var sall []sref
+	for i := range hs {
+		for j := range hs[i].SCases {
+			sall = append(sall, sref{i, &hs[i].SCases[j]})
+		}
+	}
+	const perSShard = 100
+	for start, sh := 0, 0; start < len(sall); start, sh = start+perSShard, sh+1 {
+		end := start + perSShard
+		if end > len(sall) {
+			end = len(sall)
+		}
+		var sb strings.Builder
+		sb.WriteString("From Coq Require Import ZArith List.\nFrom Verif Require Import S1.Model C08.Model C08.Replay.\nImport ListNotations.\nOpen Scope Z_scope.\n")
+		sb.WriteString(fmt.Sprintf("Definition genesis : Z := %d.\nDefinition gfh : Z := %d.\n", pool.Genesis, pool.GenesisFilter))
+		sb.WriteString("Definition cases : list scase := [\n")
+		for i := start; i < end; i++ {
+			if i > start {
+				sb.WriteString(";\n")
+			}
+			sb.WriteString(scaseTerm(sall[i].cs, hs[sall[i].h].Ops))
+		}
+		sb.WriteString("].\nDefinition R := Eval vm_compute in (run_scases genesis gfh cases).\nSet Printing Width 1000000.\nSet Printing Depth 1000000.\nPrint R.\n")
+		c.WriteFile(filepath.Join(a.Out, fmt.Sprintf("cases_s%d.v", sh)), sb.String())
+	}
 	for i := range hs {
 		p := filepath.Join(a.Out, fmt.Sprintf("hist-%d.json", hs[i].ID))
 		c.WriteJSON(p, hs[i])
+		for _, cs := range hs[i].SCases {
+			rep.Cases[fmt.Sprint(cs.ID)] = p
+			cls := fmt.Sprintf("k%d", cs.K)
+			if cs.Torn >= 0 {
+				cls += "+torn"
+			}
+			var key string
+			switch cs.Kind {
+			case 0:
+				key = fmt.Sprintf("startup:first:filter=%v:%s", cs.Filter, cls)
+			case 1:
+				hc := "mid"
+				if cs.AH == 0 {
+					hc = "genesis"
+				}
+				key = fmt.Sprintf("startup:reset:%s:with=%v:%s", hc, cs.With, cls)
+			default:
+				key = "startup:assertion-not-triggering"
+			}
+			rep.Histogram[key]++
+			distinct.Add(key)
+			if !cs.Opened {
+				rep.Histogram["startup_open_failed"]++
+			}
+		}
 		for _, cs := range hs[i].Cases {
 			rep.Cases[fmt.Sprint(cs.ID)] = p
 			cls := "step-boundary"
@@ -351,9 +401,9 @@ func main() {
 			}
 		}
 	}
-	rep.Evaluations = len(all)
+	rep.Evaluations = len(all) + len(sall)
 	rep.DistinctNontrivial = len(distinct)
-	rep.Rule = "crash images of the real stores: for every mutating operation (block/filter append of 1..17 entries, single/multi-header block rollback, filter rollback) of generated well-formed histories, one image after each durable step that is not the last, and three torn-append images per file write (partial first entry, q whole entries, q whole + partial); each image is reopened with NewBlockHeaderStore/NewFilterHeaderStore, dumped and extended by a follow-up append; every image is non-trivial (a crash inside a multi-step operation); distinct = distinct (operation, crash class, batch size, rollback depth)"
+	rep.Rule = "crash images of the real stores: for every mutating operation (block/filter append of 1..17 entries, single/multi-header block rollback, filter rollback) of generated well-formed histories, one image after each durable step that is not the last, and three torn-append images per file write (partial first entry, q whole entries, q whole + partial); each image is reopened with NewBlockHeaderStore/NewFilterHeaderStore, dumped and extended by a follow-up append; every image is non-trivial (a crash inside a multi-step operation); distinct = distinct (operation, crash class, batch size, rollback depth). Start-up paths: one first start on an empty directory (NewBlockHeaderStore, NewFilterHeaderStore) with the directory snapshotted at every index commit and the images between commits assembled from the bbolt file of the earlier commit and a prefix of the bytes the code wrote; on every history's final state a NewFilterHeaderStore with a header state assertion that triggers the reset, snapshotted/assembled the same way, every image reopened WITH and WITHOUT the assertion; plus four assertions that must not trigger (height beyond the file, stored value, genesis entry, largest height)"
 	for i := 0; i < len(all) && i < 3; i++ {
 		rep.Samples = append(rep.Samples, all[i])
 	}
